@@ -59,6 +59,11 @@ let handle cmd =
       string_of_int (int_of_z (nM (get sub) (get ind) bs (nat_of_int i) (nat_of_int j)))))) in
     let p = tbo (get sub) (get ind) bs [st o0; st o1; st o2] (nat_of_int (n + m)) (nat_of_int n) (nat_of_int m) in
     String.concat " ; " rows ^ " | " ^ String.concat "" (List.map (function SD -> "D" | SU -> "U" | SL -> "L") p)
+  | "knn" -> let k = nat_of_int (nint ()) in let use_lb = nint () = 1 in
+    let md = nint () in let maxd = if md < 0 then Inf else Fin (z_of_int md) in
+    let n = nint () in
+    let cands = rd_list n (fun () -> let lb = z_of_int (nint ()) in let d = z_of_int (nint ()) in (lb, d)) in
+    String.concat " " (List.map (fun z -> string_of_int (int_of_z z)) (search k use_lb maxd cands))
   | "ed" -> let inner = if nint () = 0 then SqEuclid else AbsDiff in
     let s1 = rd_series () in let s2 = rd_series () in
     string_of_int (int_of_z (ed_model inner s1 s2))
